@@ -128,3 +128,15 @@ Theorem C06_r0_no_unlinking_unbounded :
 Proof. exact r0_no_unlinking_unbounded. Qed.
 Print Assumptions C06_r0_no_unlinking_unbounded.
 End C06_all_rates.
+
+(* ---- the tie to phasegen/state_space.py by translation: on two-locus lineage-counting states the translated
+        Transition.transit (linked / unlinked migration, the nine coalescence class pairs, recombination) IS the model ---- *)
+From PG Require Import gen.NpTrans gen.TransitionGen proofs.GenTransitionEquiv.
+
+Theorem C06_state_space_py_transit_is_the_model_two_loci :
+  forall (n nl : nat) (P : params (T:=R)) (s : state),
+    nl = n_loci s -> n_loci s = 2%nat -> p_lc P = true -> same_loci s ->
+    rows1 (lin s) -> rows1 (lnk s) -> n_blocks s = 1%nat ->
+    Transition_transit OpsR n nl P s = transit OpsR P s.
+Proof. exact (gen_transit_two_loci OpsR). Qed.
+Print Assumptions C06_state_space_py_transit_is_the_model_two_loci.
